@@ -143,6 +143,55 @@ def find_item(src, impl_pat, kind, name):
     raise ExtractError(f"no body for {kind} {name}")
 
 
+def slice_closure(ct, ordinal, pat, name):
+    """R10c: the `ordinal`-th (1-based) closure expression of the item whose tokens start with `pat`
+    (e.g. `move | item | match item`): parameters plus body expression."""
+    hits = [i for i in range(len(ct)) if [x.text for x in ct[i:i + len(pat)]] == pat]
+    if len(hits) < ordinal:
+        raise ExtractError(f"CLOSURE anchor {' '.join(pat)!r}: only {len(hits)} occurrences in {name}, wanted #{ordinal}")
+    i = hits[ordinal - 1]
+    # skip `move`, then the parameter list |...|
+    j = i
+    if ct[j].text == "move":
+        j += 1
+    if ct[j].text == "||":
+        j += 1
+    elif ct[j].text == "|":
+        j += 1
+        while ct[j].text != "|":
+            j += 1
+        j += 1
+    else:
+        raise ExtractError(f"CLOSURE anchor does not start a closure in {name}")
+    # body
+    if ct[j].text in ("match", "if", "loop", "unsafe", "{", "while", "for"):
+        # up to the end of the block chain
+        k = j
+        while True:
+            while ct[k].text != "{":
+                k += 1
+            k = match_close(ct, k)
+            if k + 1 < len(ct) and ct[k + 1].text == "else":
+                k += 1
+                continue
+            break
+        return ct[i:k + 1]
+    depth = 0
+    k = j
+    while k < len(ct):
+        t = ct[k].text
+        if t in OPEN:
+            depth += 1
+        elif t in CLOSE:
+            if depth == 0:
+                break
+            depth -= 1
+        elif t in (",", ";") and depth == 0:
+            break
+        k += 1
+    return ct[i:k]
+
+
 def slice_statements(ct, pat_a, pat_b, name):
     """R10: the statements of a fn body from the one starting with tokens pat_a through the end of the
     one starting with pat_b (both at the top level of the body)."""
@@ -403,6 +452,7 @@ class Block:
         self.file = self.impl_pat = self.kind = self.name = None
         self.obls = []
         self.stmts = None   # (start pattern tokens, end pattern tokens) for statement-level extraction (rule R10)
+        self.closure = None # (ordinal, start pattern tokens): expression-level extraction of a closure (rule R10c)
         self.substs = []
         self.lines = []  # annotated text lines
         self.start_line = 0
@@ -451,6 +501,11 @@ def parse_template(text):
                 for extra in f[3:]:
                     if extra.startswith("OBL"):
                         cur.obls = [x.strip() for x in extra[3:].split(",") if x.strip()]
+                    elif extra.startswith("CLOSURE"):
+                        m = re.match(r"CLOSURE\s+(\d+)\s+`(.*?)`\s*$", extra)
+                        if not m:
+                            raise ExtractError(f"line {ln}: bad CLOSURE clause")
+                        cur.closure = (int(m.group(1)), [t.text for t in code_tokens(tokenize(m.group(2)))])
                     elif extra.startswith("STMTS"):
                         m = re.match(r"STMTS\s+`(.*?)`\s*\.\.\s*`(.*?)`\s*$", extra)
                         if not m:
@@ -521,6 +576,8 @@ def fetch_real(repo, blk, unit_substs):
     ct = find_item(src, blk.impl_pat, blk.kind, blk.name)
     if blk.stmts:
         ct = slice_statements(ct, blk.stmts[0], blk.stmts[1], blk.name)
+    if blk.closure:
+        ct = slice_closure(ct, blk.closure[0], blk.closure[1], blk.name)
     raw_text = " ".join(t.text for t in ct)
     ct = rule_R1_attrs(ct, log)
     ct = rule_R2_logs(ct, log)
